@@ -304,6 +304,7 @@ def e3(ck: Check) -> None:
                 continue
             sd_param = f.params()[0]
             flag_returns = []
+            counter_returns = []      # `return abandoned == 0`
             for n in own_walk(f.node):
                 if isinstance(n, ast.Return):
                     rn = fm.cfgn(n)
@@ -326,6 +327,51 @@ def e3(ck: Check) -> None:
                               f"limit return: False, with the pending node known unexpanded")
                     elif isinstance(n.value, ast.Name):
                         flag_returns.append(n)
+                    elif isinstance(n.value, ast.Compare) and len(n.value.ops) == 1 and isinstance(n.value.ops[0], ast.Eq) \
+                            and isinstance(n.value.left, ast.Name) and isinstance(n.value.comparators[0], ast.Constant) \
+                            and n.value.comparators[0].value == 0:
+                        counter_returns.append(n)
+            # a limit folded into a loop condition: the false edge of `while work and len(sd) < size_limit` is a limit exit
+            # as well as the exhausted one; a completion result behind it needs a test of its own
+            for w in own_walk(f.node):
+                if not (isinstance(w, ast.While) and _mentions_limit(w.test, limits)):
+                    continue
+                hdr_w = fm.cfg.loop_header[w]
+                exits = [fm.cfg.nodes[s_] for s_ in fm.cfg.g.successors(hdr_w.id)
+                         if fm.cfg.nodes[s_].kind == "branch" and not fm.cfg.nodes[s_].pol]
+                after = set()
+                for b_ in exits:
+                    after |= fm.cfg.reach_avoiding(b_, [hdr_w]) | {b_.id}
+                for r in own_walk(f.node):
+                    if isinstance(r, ast.Return) and not is_false(r.value) and fm.cfgn(r).id in after \
+                            and fm.cfgn(r).id not in fm.cfg.loop_nodes[w]:
+                        again = any((not pol_) and _mentions_limit(t_, limits) and b2.id not in {x.id for x in exits}
+                                    for t_, pol_, b2 in fm.facts(fm.cfgn(r)))
+                        ck.ob("E3", fm, r, again,
+                              "completion result behind a loop that also stops on a limit is guarded by a test of that limit" if again else
+                              f"line {w.lineno}: the loop condition `{text(w.test)[:70]}` also ends the loop when the "
+                              f"{'/'.join(sorted(_mentions_limit(w.test, limits)))} is reached, and `{text(r)[:30]}` follows without "
+                              f"telling the two exits apart: a truncated expansion reports completion", key=f"limit in loop condition, line {w.lineno}")
+            # the same with a counter of abandoned work: every abandon path must add a positive constant
+            for r in counter_returns:
+                cnt = r.value.left.id
+                for n in own_walk(f.node):
+                    if isinstance(n, ast.Continue):
+                        cn = fm.cfgn(n)
+                        hits = _limit_hits(fm, cn, limits)
+                        if not hits:
+                            continue
+                        loop = fm.cfg.enclosing_loops(cn)[0]
+                        hdr = fm.cfg.loop_header[loop]
+                        incs = [c for c in fm.cfg.nodes if c.kind == "stmt" and isinstance(c.ast, ast.AugAssign)
+                                and isinstance(c.ast.op, ast.Add) and text(c.ast.target) == cnt
+                                and isinstance(c.ast.value, ast.Constant) and isinstance(c.ast.value.value, int) and c.ast.value.value > 0]
+                        hitb = _limit_hit_branches(fm, cn, limits)
+                        ok = bool(incs) and all(cn.id not in reach_stop(fm, b, {c.id for c in incs}, {hdr.id}) for b in hitb)
+                        ck.ob("E3", fm, n, ok, f"abandoning successors under {'/'.join(sorted(hits))} counts in `{cnt}`" if ok else
+                              f"successors are abandoned under the {'/'.join(sorted(hits))}, but `{cnt}` (returned as `{text(r.value)}`) "
+                              f"is not raised by a positive constant on that path (an amount that is computed -- e.g. the number of "
+                              f"abandoned nodes that are unexpanded -- can be zero although unvisited descendants remain)")
             # abandon paths (continue under a limit) must clear the returned flag
             for r in flag_returns:
                 flag = r.value.id
